@@ -32,7 +32,7 @@ EXTRA = {"C05_B": ["C17"], "C15_B": ["C15", "C16"], "C16_B": ["C16", "C15"], "C1
          "C08_M": ["C08", "C14"], "C05_M": ["C05", "C15"], "C05_N": ["C05", "C03"], "C09_N": ["C09", "C15", "C16"], "C15_N": ["C15", "C16"],
          "C20_M": ["C20", "C17"], "C13_M": ["C13", "C15"], "C01_M": ["C01", "C03"], "C01_N": ["C01", "C17"],
          "C02_P": ["C02", "C15"], "C03_P": ["C03", "C15"], "C04_O": ["C04", "C08"], "C04_P": ["C04", "C15"], "C12_P": ["C12", "C15"], "C11_P": ["C11"],
-         "C15_P": ["C15", "C16"], "C06_Q": ["C06", "C03"], "C06_R": ["C06", "C03"], "C18_R": ["C18", "C17"], "C19_Q": ["C19", "C08"], "C17_O": ["C17", "C15"], "C19_P": ["C19", "C15"], "C08_O": ["C08", "C13"], "C05_O": ["C05", "C13"]}
+         "C15_P": ["C15", "C16"], "C15_Q": ["C15", "C03"], "C15_R": ["C15", "C03"], "C06_Q": ["C06", "C03"], "C06_R": ["C06", "C03"], "C18_R": ["C18", "C17"], "C19_Q": ["C19", "C08"], "C17_O": ["C17", "C15"], "C19_P": ["C19", "C15"], "C08_O": ["C08", "C13"], "C05_O": ["C05", "C13"]}
 
 
 def sh(cmd):
